@@ -48,7 +48,7 @@ INSTANCES = ['two_node', 'contract_storage', 'multicommodity', 'late_node', 'unc
              'two_node@big', 'scaled@big', 'contract_storage@small', 'orderbook', 'two_node_discounted', 'ext_transport']     # @big / @small: prices of the order 1e5 / 1e-4 (other currencies / units)
 SOLVERS = [None, 'CLARABEL', 'SCIPY']
 BOUNDS = dict(quick='placement: %s; supergradient certificate: 1 seeded instance of each of %s x solvers %s x all (node, step)' % ([p[0] for p in PLACEMENT], INSTANCES, SOLVERS),
-              thorough='3 seeded instances per shape')
+              thorough='6 seeded instances per shape')
 OUTSIDE = ['"for all portfolios and prices": the portfolio/prices of (b) are a finite seeded instance set (a real solver must produce the duals); the solver quantifies over the perturbation and the re-optimised point',
            'MIP portfolios (no duals)']
 ASSUMPTIONS = ['an injection d at (node, step) enters the nodal row as  sum dispatch + d = 0', 'tolerance 1e-6 relative on value and price']
@@ -77,7 +77,7 @@ def cases(tier, seed):
     # an injection is a right-hand side of the nodal balance: the nodal rows handed to the solver carry the problem's right-hand side and
     # their duals are filed under 'N' (C03's recorder machinery, fully symbolic problems with nodal rows)
     out.append(('nodal_right_hand_side_and_duals_reach_the_solver', dict(kind='c03', sub=dict(kind='stub', m=2, n=3, mapping='plain', ctypes=['UN', 'NN', 'SN', 'LN']))))
-    reps = 3 if tier == 'thorough' else 1
+    reps = 6 if tier == 'thorough' else 1
     for shp in INSTANCES:
         for k in range(reps):
             out.append(('marginal_%s_%d' % (shp, k), dict(kind='marginal', shape=shp, k=k)))
